@@ -999,7 +999,7 @@ def run(chk: core.Check) -> int:
     # cmp_ast, with prefix / extension pairs
     cmps = cmp_cases(rng, 1500 if chk.quick else 15000)
     impl_c = core.pmap(impl_cmp, [pr for _, pr in cmps], chunksize=256)
-    n_c, kinds_c = 0, {}
+    n_c, kinds_c, cmp_fails = 0, {}, []
     if have_driver:
         mod_c = core.model_batch([{"op": "c12.cmp", "a": pyast.module_to_json(a)[0], "b": pyast.module_to_json(b)[0]} for _, (a, b) in cmps])
         for (kind, pr), i, m in zip(cmps, impl_c, mod_c):
@@ -1008,8 +1008,8 @@ def run(chk: core.Check) -> int:
             chk.count(("cmp",) + pr, pr[0] != pr[1])
             # the property needs exactly this: two nodes are reported equal only if they are the same code
             if i["eq"] and pyast.module_to_json(pr[0]) != pyast.module_to_json(pr[1]):
-                chk.failure({"clause": "change-detection", "cmp_case": kind}, "cmp_ast reports two different definitions as equal (%s)" % kind,
-                            {"fn": "cmp", "a": pr[0], "b": pr[1]})
+                cmp_fails.append(({"clause": "change-detection", "cmp_case": kind}, "cmp_ast reports two different definitions as equal (%s)" % kind,
+                                  {"fn": "cmp", "a": pr[0], "b": pr[1]}))
             if i.get("eq") != m.get("eq"):
                 n_c += 1
                 chk.disagreement("C12 correspondence: Stmt.beq vs cmp_ast", {"a": pr[0], "b": pr[1]}, i, m)
@@ -1048,6 +1048,8 @@ def run(chk: core.Check) -> int:
             got = [sig for sig, _ in fails if all(sig.get(k) == v for k, v in want.items())]
             chk.oblige("witness %s of the negation theorems fails on the real code" % c["id"], "witness", bool(got),
                        "expected a failure matching %s, oracle reported %s" % (want, [sg for sg, _ in fails]))
+    for sig, what, rp in cmp_fails:  # after the end-to-end failures, so that the replay file holds a CLI history when there is one
+        chk.failure(sig, what, rp)
     chk.coverage["sync_distribution"] = dist
     return chk.finish("wild stream: random nested modules x search paths (60-70% taken from the module) x replacement nodes; structured stream: triples "
                       "(class file, method file, argparse file) with mutually different interfaces or empty/missing/target-less files, unrelated "
@@ -1095,11 +1097,14 @@ def replay(path: str) -> int:
     with quiet():
         fails = oracle(chk, case, snaps)
     want = d.get("sig")
+    unlisted = 0
     for sig, what in fails:
-        print("replay: FAILS %s :: %s" % (json.dumps(sig, sort_keys=True), what))
-    if not fails:
-        print("replay: property holds on this case")
-        return 0
+        new_ = chk.failure(sig, what, {})
+        unlisted += bool(new_)
+        print("replay: %s %s :: %s" % ("FAILS" if new_ else "known finding", json.dumps(sig, sort_keys=True), what))
     if want and not any(all(s.get(k) == v for k, v in want.items()) for s, _ in fails):
         print("replay: the recorded signature was not reproduced")
+    if not unlisted:
+        print("replay: property holds on this case (apart from listed findings)")
+        return 0
     return 1
